@@ -98,6 +98,10 @@ type dialWorld struct {
 	wkTr *http.Transport
 	nop  int
 	ops  map[int]*getOp
+	// server names already asked for in this run (canonical spelling): a
+	// later request may be answered from the client's resolution cache
+	asked map[string]bool
+	lastDeleg string
 	// reqTimeout is the client's overall request timeout. A request that runs
 	// into it ends the run: net/http then races its own cancellation against
 	// dials it has just started, which the simulator cannot order.
@@ -335,6 +339,12 @@ func (w noWellKnown) SRV(service, h string) ref.SRVAnswer { return w.z.srvTruth(
 
 func (w *dialWorld) pickTarget() string {
 	t := w.r.T
+	// sometimes the name that an earlier name's well-known document delegates
+	// to: it is a server name in its own right, with its own document
+	if w.lastDeleg != "" && t.Chance(300) {
+		w.r.Probe("request_for_a_name_another_name_delegates_to")
+		return w.lastDeleg
+	}
 	switch t.Weighted([]int{8, 2, 2, 2, 1}) {
 	case 1:
 		return fmt.Sprintf("%s:%d", sim.Pick(t, dnsPool), sim.Pick(t, []int{8448, 443, 4242}))
@@ -410,6 +420,40 @@ func (w *dialWorld) opGet(name string) {
 	}
 	synctest.Wait()
 	all, reqs := w.n.drain()
+	// Which dialer object a connection was made with tells a well-known fetch
+	// from a federation connection only as long as the client keeps two
+	// dialers - an implementation detail (a client with one shared policy
+	// dialer is as good). What does not depend on it: the fetch goes to port
+	// 443 of the very host name asked for, and nothing but the well-known
+	// document is requested over it.
+	if wkHost := strings.TrimSuffix(strings.ToLower(want.WellKnownFor), "."); wkHost != "" {
+		fedReq := map[int]bool{}
+		for _, q := range reqs {
+			if q.path != "/.well-known/matrix/server" {
+				fedReq[q.conn] = true
+			}
+		}
+		for i := range all {
+			a := &all[i]
+			if a.tag != "fed" {
+				continue
+			}
+			vh, vp := splitDest(a.via)
+			vh = strings.TrimSuffix(strings.ToLower(vh), ".")
+			byName := vh == wkHost
+			if ip, err := netip.ParseAddr(strings.Trim(vh, "[]")); err == nil && w.hostAddrs(wkHost)[ip.Unmap()] {
+				byName = true // dialled through a resolver of the client's own (DNS cache)
+			}
+			if vp != 443 || !byName {
+				continue
+			}
+			if a.outcome == "connected" && fedReq[a.conn] {
+				continue
+			}
+			a.tag = "wk"
+			r.Probe("wellknown_dial_told_by_its_address")
+		}
+	}
 	// dials begun at or after the instant the client gave up are the racing
 	// ones: kept for the policy oracle, left out of the log
 	var as, late []attempt
@@ -424,6 +468,31 @@ func (w *dialWorld) opGet(name string) {
 		r.Probe("request_hit_client_timeout_run_ends")
 		r.Fault("timeout")
 		w.stop = true
+	}
+	// The well-known step may not be skipped: the first time a client is asked
+	// for a host name without a port it has nothing cached under that name, so
+	// it has to try to fetch the name's well-known document (whatever comes of
+	// it) - also when some other name's document delegated to this host before.
+	if w.asked == nil {
+		w.asked = map[string]bool{}
+	}
+	if first := !w.asked[canon(name)]; first && want.WellKnownFor != "" && !want.Refused && !want.Unspecified {
+		nwk := 0
+		for _, a := range all {
+			if a.tag == "wk" {
+				nwk++
+			}
+		}
+		r.Check(nwk > 0, "C16", "resolution", "wellknown_step_skipped", "first request for server name %q: no attempt was made to fetch its well-known document; the network saw %s", name, fmtAttempts(all))
+		r.Probe("first_request_for_a_name_fetches_wellknown")
+	}
+	w.asked[canon(name)] = true
+	if h := w.z.hosts[canon(name)]; h != nil && h.wk.mode != wkAbsent && h.wk.doc == docServer {
+		for _, n := range dnsPool {
+			if h.wk.mserver == n && canon(n) != canon(name) {
+				w.lastDeleg = n
+			}
+		}
 	}
 	for _, a := range late {
 		if a.outcome == "connected" && w.policy && a.tag == "fed" {
